@@ -100,6 +100,15 @@ def write_sites(F, S):
                     # scalar local: must have an initialiser or a dominating store / out-parameter fill
                     dd = local_defined(F, S, fn, t, "<scalar>", c["id"])
                     has_init = "init" in d
+                    if has_init:
+                        # `std::array<T, N> a;` runs a trivial default constructor: the elements are left indeterminate
+                        i0 = fn.n(fn.strip(d["init"], casts=False))
+                        if i0.get("k") in CTORS and i0.get("trivial") and i0.get("default_ctor") and not i0.get("zero_init") and not i0.get("list_init"):
+                            has_init = False
+                            # filled completely by fill() before the write?
+                            for x in fn.nodes:
+                                if x["k"] == "CXXMemberCallExpr" and x.get("fname") == "fill" and "obj" in x and fn.term(x["obj"]) == t and x["id"] < c["id"]:
+                                    has_init = True
                     inst = "%s#init:%s" % (label, t[1])
                     if has_init or dd:
                         out.append(ok("R-INIT", inst, fn.loc(c["id"]), fn.qn, "the local `%s` is assigned before it is written" % t[1], "initialised / assigned on every path", nontrivial=False))
